@@ -8,6 +8,8 @@ docstring documents every subset and every permutation of the signature (plus *a
 """
 import ast
 import itertools
+import os
+import sys
 from collections import OrderedDict
 from collections.abc import Mapping
 from copy import deepcopy
@@ -154,7 +156,7 @@ def partial_functions():
     for style in ("rest", "google", "numpydoc"):
         for k in range(0, 4):
             for names in itertools.permutations(SIG, k):
-                for header in ("def f(a, b, c):", "def f(a, b=2, c=3):", "def f(self, a, b, c=3):", "def f(a, *, b, c=1):", "def f(a, b, c, *args, **kwargs):"):
+                for header in ("def f(a, b, c):", "def f(a, b=2, c=3):", "def f(self, a, b, c=3):", "def f(a, *, b, c=1):", "def f(a, b, c, *args, **kwargs):", "def f(a: int, b: Optional[str] = None, c: float = 0.5) -> bool:"):
                     for indent in (False, True):
                         doc = doc_for(style, list(names))
                         if header.endswith("**kwargs):") and k == 3:
@@ -194,8 +196,52 @@ def json_schema_documents():
         yield dict(typ=tk, pattern=pk, extra=xk, default=dk, doc=ck, required=required), doc
 
 
+# ---- (f) live objects: the same parsers accept functions and classes that exist in memory (inspect-based path) ---------------
+LIVE_CLASS_DOCS = {
+    "rest": "Summary.\n\n    :cvar a: the a\n    :cvar b: the b. Defaults to 5\n    ",
+    "google": "Summary.\n\n    Attributes:\n      a (int): the a\n      b (int): the b\n    ",
+    "numpydoc": "Summary.\n\n    Attributes\n    ----------\n    a : int\n        the a\n    b : int\n        the b\n    ",
+    "none": None,
+}
+LIVE_CLASS_BODIES = [
+    ("annotated", "    a: int = 1\n    b: int = 5\n"),
+    ("plain", "    a = 1\n    b = 5\n"),
+    ("annotation_only", "    a: int\n    b: Optional[str]\n"),
+    ("with_call", "    a: int = 1\n\n    def __call__(self, c, d=2):\n        \"\"\"\n        Call.\n\n        :param c: the c\n        :param d: the d\n        \"\"\"\n        return c\n"),
+    ("with_init", "    def __init__(self, a, b: int = 5):\n        \"\"\"\n        Init.\n\n        :param a: the a\n        :param b: the b\n        \"\"\"\n        self.a = a\n"),
+]
+
+
+def live_classes():
+    for (dk, doc), (bk, body), merge in itertools.product(LIVE_CLASS_DOCS.items(), LIVE_CLASS_BODIES, (None, "__call__", "__init__")):
+        if merge and merge not in body:
+            continue
+        src = "from typing import Optional\n\n\nclass Cfg(object):\n" + ('    """%s"""\n\n' % doc if doc is not None else "") + body
+        yield dict(doc=dk, body=bk, merge=merge), src
+
+
+def _import_scratch(src, tag):
+    """write src as a module of its own and import it (live objects need retrievable source)"""
+    import importlib.util
+    import tempfile
+
+    d = tempfile.mkdtemp(prefix="c14_live_")
+    path = os.path.join(d, "c14_live_%s.py" % tag)
+    with open(path, "wt") as f:
+        f.write(src)
+    spec = importlib.util.spec_from_file_location("c14_live_%s" % tag, path)
+    mod = importlib.util.module_from_spec(spec)
+    sys.modules[spec.name] = mod  # inspect.getsource of a class goes through sys.modules
+    spec.loader.exec_module(mod)
+    return mod, d
+
+
 def cases(tier, seed):
     n = 3 if tier == "quick" else 4
+    pf_live = list(partial_functions())
+    for lo in range(0, len(pf_live), 40):
+        yield dict(kind="live_function_block", lo=lo, hi=lo + 40)
+    yield dict(kind="live_class_block")
     js = list(json_schema_documents())
     for lo in range(0, len(js), 64):
         yield dict(kind="json_schema_block", lo=lo, hi=lo + 64)
@@ -289,6 +335,56 @@ def run(case):
             names = [(nm, kind, (nm in key["documented"]) or (kind in ("vararg", "kwarg") and nm in doc_text)) for nm, kind in names]
             report("function", ir, dict(kind="partial_one", key=key, src=src), signature=names, source="partial", style=key["style"], n_documented=len(key["documented"]),
                    header_kind=key["header"].split("(", 1)[1])
+    elif case["kind"] in ("live_function_block", "live_function_one"):
+        import shutil
+
+        items = [(case["key"], case["src"])] if case["kind"] == "live_function_one" else list(partial_functions())[case["lo"]: case["hi"]]
+        for i, (key, src) in enumerate(items):
+            n += 1
+            transitions += 1
+            mod, d = _import_scratch("from typing import Optional\n\n\n" + src, "f%d" % i)
+            try:
+                try:
+                    ir = cdd.function.parse.function(mod.f)
+                except Exception:
+                    outcomes.add("raises")
+                    continue
+                outcomes.add("returns")
+                fn = ast.parse(src).body[0]
+                args = fn.args
+                names = [(a.arg, "positional") for a in args.posonlyargs + args.args] + [(a.arg, "kwonly") for a in args.kwonlyargs]
+                if names and names[0][0] in ("self", "cls"):
+                    names = names[1:]
+                if args.vararg:
+                    names.append((args.vararg.arg, "vararg"))
+                if args.kwarg:
+                    names.append((args.kwarg.arg, "kwarg"))
+                doc_text = ast.get_docstring(fn) or ""
+                names = [(nm, kind, (nm in key["documented"]) or (kind in ("vararg", "kwarg") and nm in doc_text)) for nm, kind in names]
+                report("function_live", ir, dict(kind="live_function_one", key=key, src=src), signature=names, source="live", style=key["style"], n_documented=len(key["documented"]),
+                       header_kind=key["header"].split("(", 1)[1])
+            finally:
+                shutil.rmtree(d, ignore_errors=True)
+    elif case["kind"] in ("live_class_block", "live_class_one"):
+        import shutil
+
+        import cdd.class_.parse
+
+        items = [(case["key"], case["src"])] if case["kind"] == "live_class_one" else list(live_classes())
+        for i, (key, src) in enumerate(items):
+            n += 1
+            transitions += 1
+            mod, d = _import_scratch(src, "c%d" % i)
+            try:
+                try:
+                    ir = cdd.class_.parse.class_(mod.Cfg, merge_inner_function=key["merge"])
+                except Exception:
+                    outcomes.add("raises")
+                    continue
+                outcomes.add("returns")
+                report("class_live", ir, dict(kind="live_class_one", key=key, src=src), source="live", style=key["doc"], body=key["body"], merge=str(key["merge"]))
+            finally:
+                shutil.rmtree(d, ignore_errors=True)
     elif case["kind"] in ("json_schema_block", "json_schema_one"):
         import cdd.json_schema.parse
 
@@ -340,9 +436,10 @@ def describe(tier):
         rule="(a) every docstring of <= {n} tokens over the 28-token alphabet (parser outputs whenever it returns, both emit_default_doc); (b) {g} "
         "grammar-generated docstrings: 3 styles x all orders of <= 4 of 7 sections x separators x indentation; (c) every interface of I(1) u I(2) "
         "emitted through 10 format variants and re-parsed; (d) {p} functions documenting every subset and permutation of a 3-parameter "
-        "signature under 5 signature shapes (defaults, self, keyword-only, *args/**kwargs), 3 styles, indented or not; (e) {j} JSON-schema documents: a property built from "
+        "signature under 5 signature shapes (defaults, self, keyword-only, *args/**kwargs), 3 styles, indented or not; (f) the same {p} functions and {lc} classes (4 docstring styles x 5 bodies x merge_inner_function) imported from a scratch module and "
+        "parsed as live objects (inspect path); (e) {j} JSON-schema documents: a property built from "
         "8 types x 7 patterns (word lists, lists with non-letters, a real regex) x 8 further keywords (enum, format, items, $ref, anyOf, bounds, title) x default x description x required; "
-        "a case = one parser input".format(n=3 if tier == "quick" else 4, g=sum(1 for _ in grammar_docstrings()), p=sum(1 for _ in partial_functions()), j=sum(1 for _ in json_schema_documents())),
+        "a case = one parser input".format(n=3 if tier == "quick" else 4, g=sum(1 for _ in grammar_docstrings()), p=sum(1 for _ in partial_functions()), j=sum(1 for _ in json_schema_documents()), lc=sum(1 for _ in live_classes())),
         bounds=dict(sigma_doc=c11.SIGMA_DOC, sections=list(SECTIONS["rest"]), signature=SIG),
         exhaustive=True,
         assumptions=["shape predicate mc/checks/c14.py:wellformed transcribes the property text; 'doc' may be None at the top level as the declared type says Optional[str]"],
